@@ -72,15 +72,15 @@ PROPS = {
         assumptions=["Parser offsets are u32: start_offset + remainder length <= u32::MAX is a precondition (parser_inv)",
                      "the digit-run specification is str::parse's language minus a leading '+' (Kani SPEC harnesses against the real str::parse, bounded)"],
     ),
-    "C20": _p(
+    "C20": dict(_p(
         "Concatenation/join macros and CStr conversions equal their std counterparts",
         kani=["c20", "c20m"], verus=["c20", "c20b", "c20s"], level="proof",
         level_text="Verus: from_bytes_until_nul(_inner)/from_bytes_with_nul succeed exactly when a nul exists / the first nul is last and discharge CStr::from_bytes_with_nul_unchecked's precondition; "
                    "slice concat kernels (concat_sum_lengths, concat_slices) equal <[&[T]]>::concat; the str_concat!/str_join! kernels (concat_sum_lengths, concat_strs, join_sum_lengths, join_strs over &[&str] / &[char] pieces and str / char separators, unit c20s) compute the total length and write exactly the concatenation / the join of the pieces' UTF-8 encodings, with the char encoder itself proved (unit c07e). CStr->bytes/str pointer walks and constant macro instances: Kani (bounded)",
         technique="Verus contracts on CStr constructors, slice-concat and string concat/join kernels; Kani bounded harnesses vs real CStr / concat / join",
         unchecked=["string::from_iter! rides on the iterator DSL (C10, not applicable) and is not covered",
-                   "the macro glue (const LEN / const CONC evaluation) is rustc's const evaluation; a few constant instances are smoke-tested by Kani harnesses"],
-    ),
+                   "the macro glue (const LEN / const CONC evaluation) is rustc's const evaluation; constant instances (kani/src/c20m.rs: str_concat!/str_join!/slice_concat! incl. multi-byte char separators and empty pieces) are under a compile obligation - they are const-evaluated when the module builds, so a kernel that writes past its LEN-byte buffer or produces invalid UTF-8 stops the module from compiling, which is reported as a violation when the rest of the harness crate still builds"],
+    ), compile_probes={"c20m": dict(ob="C20.macro_instances.const_evaluate_and_compile", needs=[])}),
     "C11": _p(
         "Array-building macros return fully initialised arrays equal to std's",
         kani=["c11"], level="model_checking",
@@ -126,7 +126,7 @@ PROPS = {
         kani=["c09"], level="proof",
         level_text="Kani complete harnesses (loop-free, full domain of start/end): for each of the 13 Step types (6 quick, 7 thorough) and each of start..end, start..=end, start.. (owned and borrowed, forward and .rev()): "
                    "one step of symbolic direction yields std's item and a successor state that behaves like std's successor under both next and next_back - an inductive bisimulation covering every history; "
-                   "char ranges cross the surrogate gap (cover witnesses). Bounded: 4-step mixed walks; thorough: whole for_each! iteration over all u8/i8 pairs",
+                   "char ranges cross the surrogate gap (cover witnesses). Bounded: 4-step mixed walks; konst::for_range! against std for the first six iterations of every (start,end) pair (u8, i8, usize, i128); thorough: whole for_each! iteration over all u8/i8 pairs",
         technique="Kani complete (loop-free, full-domain) one-step bisimulation harnesses against core::ops::Range* (typewit Step dispatch is outside Verus)",
         assumptions=["RangeFrom is checked under start < MAX (konst and std both overflow there)",
                      "iterator fields are private: successor states are compared by behaviour (next and next_back on copies), which determines a range state up to emptiness"],
@@ -166,8 +166,8 @@ PROPS = {
                    "panic safety: what happens while unwinding out of a panicking user closure or Clone/Drop impl (Kani ends a path at the panic and never runs the unwinding destructors; seeded change C01-3 - a Clone impl that claims its slots initialised before writing them - is therefore invisible)",
                    "build configurations other than the features rust_1_83+parsing+cmp+iter (e.g. the extra assertions of the `debug` feature)"],
     ), inventory=True,
-       kani_filter="^(c01_|c02_mut_u16$|c02_chunks_u16_2$|c02_try_into_array_mut$|c07_contract_|c07_decode_encode_id$|c07_encode_utf8$|c11_map_ok_n2$|c11_map_break_panics_n2$|c11_builder_ops_n2$|c11_builder_build_nonfull_panics$|c15_consumer_n2$|c15_builder_n2$|c15_destructure_arrays$|c20_cstr)",
-       kani_filter_thorough="^(c01_|c02_mut_|c02_chunks_|c02_try_into_array|c07_contract_|c07_decode_encode_id$|c07_encode_utf8$|c07_from_u32$|c11_|c15_|c20_cstr)"),
+       kani_filter="^(c01_|c02_mut_|c02_chunks_|c02_try_into_array|c02_zst|c07_contract_|c07_decode_encode_id$|c07_encode_utf8$|c07_from_u32$|c11_(?!collect_const_zip_rev_unequal_len$|collect_const_take_rev$)|c15_|c20_cstr)",
+       kani_filter_thorough="^(c01_|c02_mut_|c02_chunks_|c02_try_into_array|c02_zst|c07_contract_|c07_decode_encode_id$|c07_encode_utf8$|c07_from_u32$|c11_(?!collect_const_zip_rev_unequal_len$|collect_const_take_rev$)|c15_|c20_cstr)"),
     "C19": dict(_p(
         "Option/Result, rebind and min/max macros equal their std/`?` counterparts",
         kani=["c19", "c19r"], verus=["c19"], level="proof",
